@@ -261,6 +261,12 @@ func (w *c16Worker) storm(res *runner.CaseResult, idx int) {
 	}
 	snap := int64(3 + rng.Intn(8))
 	proj, err := w.project(snap)
+	if idx%2 == 1 {
+		// with an attachment limit (never reached) attach / detach take the doc-attachment
+		// locker as well: the fourth named locker is otherwise never acquired
+		proj, err = w.projectLimited(snap)
+		res.AddStat("storms_with_the_attachment_locker_in_use", 1)
+	}
 	if err != nil {
 		res.Inconclusive = err.Error()
 		return
@@ -378,10 +384,13 @@ func (w *c16Worker) storm(res *runner.CaseResult, idx int) {
 					cancels = append(cancels, cancel)
 					watches.Add(1)
 					cwg.Add(1)
+					// the identifiers are read HERE: the client goroutine goes on to detach and
+					// re-attach, which replaces r.Doc / r.DocID
+					cid, did, dk := r.ID.String(), r.DocID, string(r.Doc.Key())
 					go func(r *replica.Replica) {
 						defer cwg.Done()
-						req := connect.NewRequest(&api.WatchDocumentRequest{ClientId: r.ID.String(), DocumentId: r.DocID})
-						req.Header().Add(types.ShardKey, proj.PublicKey+"/"+string(r.Doc.Key()))
+						req := connect.NewRequest(&api.WatchDocumentRequest{ClientId: cid, DocumentId: did})
+						req.Header().Add(types.ShardKey, proj.PublicKey+"/"+dk)
 						stream, err := r.RPC.WatchDocument(wctx, req)
 						if err != nil {
 							if !allowedRacingError(err) {
